@@ -22,19 +22,60 @@ def words(n, seed):
 NW = 40            # words per sample
 
 
-def build(fmt, names, patch_name="Patch0"):
-    """-> (image bytes, directory path of the samples for ls, export directory prefix)"""
+def build(fmt, names, patch_name="Patch0", level=0):
+    """-> (image bytes, directory path whose rows carry the names, export directory prefix)
+    level 0: the names are sample names of one AKAI volume / Roland performance (or CDDA titles);
+    level 1: Roland performances of one volume; level 2: Roland ORPHAN performances (listed under the pseudo-volume); level 3: AKAI / Roland volumes.
+    For levels 1..3 directory i holds the sample "S<i>" (Roland: below patch "Pa<i>"), which is how a listing of it is recognised.
+    level 4: like 3, but every volume holds the SAME inner names (performance "P", sample "S"): only the volume component tells the files apart."""
     if fmt == 2:
         return build_cdda(names), "", "out/"
+    n = len(names)
     if fmt == 0:
         from vf import akaiw
+        if level in (3, 4):
+            sn = (lambda i: "S%d" % i) if level == 3 else (lambda i: "S")
+            vols = [(nm, [(sn(i), 0xf3, akaiw.sample_file(sn(i), words(NW, i + 1), root=36 + i), None)], None) for i, nm in enumerate(names)]
+            return akaiw.partition(vols, size_sectors=8 + 3 * n), "A:", "out/A/"
         files = [(nm, 0xf3, akaiw.sample_file(nm, words(NW, i + 1), root=36 + i), None) for i, nm in enumerate(names)]
         return akaiw.partition([("VOL", files, None)], size_sectors=8 + len(names)), "A:/VOL", "out/A/VOL/"
     from vf import rolandw
-    partials = [("Part%d" % j, list(range(4 * j, min(4 * j + 4, len(names))))) for j in range((len(names) + 3) // 4)]
-    model = {"volumes": [("VolA", [0])], "performances": [("Perf0", [0])], "patches": [(patch_name, list(range(len(partials))))], "partials": partials,
-             "samples": [dict(name=nm, words=words(NW, i + 1), key=36 + i, mode=2, sustain_end=NW - 1, release_end=NW - 1) for i, nm in enumerate(names)]}
-    return rolandw.build(model), "VolA/Perf0", "out/VolA/Perf0/"
+    smp = lambda i, nm: dict(name=nm, words=words(NW, i + 1), key=36 + i, mode=2, sustain_end=NW - 1, release_end=NW - 1)
+    if level == 0:
+        partials = [("Part%d" % j, list(range(4 * j, min(4 * j + 4, n)))) for j in range((n + 3) // 4)]
+        model = {"volumes": [("VolA", [0])], "performances": [("Perf0", [0])], "patches": [(patch_name, list(range(len(partials))))], "partials": partials,
+                 "samples": [smp(i, nm) for i, nm in enumerate(names)]}
+        return rolandw.build(model), "VolA/Perf0", "out/VolA/Perf0/"
+    model = {"patches": [("Pa%d" % i, [i]) for i in range(n)], "partials": [("Part%d" % i, [i]) for i in range(n)], "samples": [smp(i, "S%d" % i) for i in range(n)]}
+    if level == 1:
+        model.update(volumes=[("VolA", list(range(n)))], performances=[(nm, [i]) for i, nm in enumerate(names)])
+        return rolandw.build(model), "VolA", "out/VolA/"
+    if level == 2:
+        model["patches"].append(("PaK", [n]))
+        model["partials"].append(("PartK", [n]))
+        model["samples"].append(smp(n, "SK"))
+        model.update(volumes=[("VolA", [n])], performances=[(nm, [i]) for i, nm in enumerate(names)] + [("Keep", [n])])
+        return rolandw.build(model), "_Orphan_perf", "out/_Orphan_perf/"
+    if level == 4:
+        model["samples"] = [smp(i, "S") for i in range(n)]
+        model.update(volumes=[(nm, [i]) for i, nm in enumerate(names)], performances=[("P", [i]) for i in range(n)])
+        return rolandw.build(model), "", "out/"
+    model.update(volumes=[(nm, [i]) for i, nm in enumerate(names)], performances=[("P%d" % i, [i]) for i in range(n)])
+    return rolandw.build(model), "", "out/"
+
+
+def dir_of_listing(text, n):
+    """which directory a listing shows, by the marker child it holds (S<i>, Pa<i> or P<i>); None if it shows none"""
+    try:
+        rows = listing_names(text)
+    except ValueError:
+        return None
+    hits = set()
+    for nm, _t in rows:
+        for i in range(n):
+            if nm in ("S%d" % i, "Pa%d" % i, "P%d" % i):
+                hits.add(i)
+    return hits.pop() if len(hits) == 1 else None
 
 
 def build_cdda(titles):
